@@ -513,8 +513,9 @@ Lemma after_trailer_body parseTr body r pk :
   (forall d rest p, after_trailer parseTr body r pk = BOk d rest p -> d = body) /\
   bres_peak (after_trailer parseTr body r pk) = pk.
 Proof.
-  unfold after_trailer. destruct (readTrailer r) as [r'| |blk r'].
+  unfold after_trailer. destruct (readTrailer r) as [r'| | |blk r'].
   - split; [intros d rest p [= <- _ _]; reflexivity|reflexivity].
+  - split; [discriminate|reflexivity].
   - split; [discriminate|reflexivity].
   - destruct (parseTr blk); (split; [try discriminate|reflexivity]). intros d rest p [= <- _ _]. reflexivity.
 Qed.
